@@ -175,8 +175,8 @@ impl Ldap {
 //@ ret r
 //@ spec
     ensures
-        final(self).controls is None && final(self).timeout is None && final(self).search_opts is None, //# C02.search_consumes_all_three_modifiers
-        r matches Ok(s) ==> s.started@ == Some(Started { controls: old(self).controls, timeout: old(self).timeout, search_opts: old(self).search_opts, chan: old(self).chan }), //# C02.stream_handle_receives_the_modifiers
+        final(self).controls is None && final(self).timeout is None && final(self).search_opts is None, //# C02+C12.search_consumes_all_three_modifiers
+        r matches Ok(s) ==> s.started@ == Some(Started { controls: old(self).controls, timeout: old(self).timeout, search_opts: old(self).search_opts, chan: old(self).chan }), //# C02+C12.stream_handle_receives_the_modifiers
         r matches Ok(s) ==> s.adapters@ == adapters.as_vec(),
 //@end
 
@@ -202,7 +202,61 @@ impl Ldap {
         proof { assert(res == stream_result(fin)); } //# C10.search_returns_the_streams_final_result
 //@ spec
     ensures
-        final(self).controls is None && final(self).timeout is None && final(self).search_opts is None, //# C02.search_consumes_all_three_modifiers
+        final(self).controls is None && final(self).timeout is None && final(self).search_opts is None, //# C02+C12.search_consumes_all_three_modifiers
+//@end
+}
+
+
+// ---- EntriesOnly adapter (src/adapters.rs): skips intermediate messages (25), moves the URIs of reference messages
+// (19) into `refs`, hands everything else through unchanged; finish() appends the collected refs to the result.
+pub uninterp spec fn ref_uris(t: StructureTag) -> Seq<String>;
+// search::parse_refs (public, panics on a malformed referral by contract -- V-result); its result as a function of the tag
+#[verifier::external_body]
+pub fn parse_refs(t: StructureTag) -> (r: Vec<String>) ensures r@ == ref_uris(t) { unimplemented!() }
+pub uninterp spec fn iter_seq<X, I>(i: I) -> Seq<X>;
+pub broadcast proof fn ax_iter_seq_vec<X>(v: Vec<X>) ensures #[trigger] iter_seq::<X, Vec<X>>(v) == v@ { admit(); }
+pub assume_specification<X, AL: std::alloc::Allocator, I: IntoIterator<Item = X>> [<Vec<X, AL> as Extend<X>>::extend] (s: &mut Vec<X, AL>, it: I)
+    ensures final(s)@ == old(s)@ + iter_seq::<X, I>(it);
+pub open spec fn skipped(e: ResultEntry) -> bool { e.0.id == 25 || e.0.id == 19 }
+// URIs of the reference messages among the first n items, in order
+pub open spec fn refs_of(items: Seq<ResultEntry>, n: int) -> Seq<String> decreases n {
+    if n <= 0 { Seq::empty() } else if items[n - 1].0.id == 19 && items[n - 1].0.id != 25 { refs_of(items, n - 1) + ref_uris(items[n - 1].0) } else { refs_of(items, n - 1) }
+}
+impl EntriesOnly {
+//@lift name=EntriesOnly::next file=src/adapters.rs impl="impl<'a, S, A> Adapter<'a, S, A> for EntriesOnly" fn=next
+//@ sub "stream: &mut SearchStream<'a, S, A>" => "stream: &mut SearchStream"
+//@ ret r
+//@ attr #[verifier::exec_allows_no_decreases_clause]
+//@ insert entry
+        let ghost all = stream.items@;
+        let ghost refs0 = self.refs@;
+        let ghost mut n: int = 0;
+        proof { assert(all.skip(0) =~= all); assert(refs0 + Seq::<String>::empty() =~= refs0); }
+//@ loop 1
+            invariant
+                all == old(stream).items@, refs0 == old(self).refs@,
+                0 <= n <= all.len(), stream.items@ == all.skip(n),
+                forall|j: int| 0 <= j < n ==> skipped(#[trigger] all[j]),
+                self.refs@ == refs0 + refs_of(all, n), //# C10.inv_reference_uris_collected_in_order
+//@ insert before "return match stream.next().verif_await() {"
+            proof {
+                assert forall|v: Vec<String>| #[trigger] iter_seq::<String, Vec<String>>(v) == v@ by { ax_iter_seq_vec::<String>(v); }
+            }
+//@ insert after "if re.is_intermediate() {"
+                        proof { n = n + 1; assert(stream.items@ =~= all.skip(n)); }
+//@ insert after "self.refs.extend(parse_refs(re.0));"
+                        proof { n = n + 1; assert(stream.items@ =~= all.skip(n)); }
+//@ insert before "                        Ok(Some(re))"
+                        proof { assert(stream.items@ =~= all.skip(n + 1)); assert(re == all[n]); }
+//@ spec
+    ensures
+        // the first item that is neither an intermediate message nor a reference, unchanged; everything before it consumed
+        r matches Ok(Some(e)) ==> exists|k: int| 0 <= k < old(stream).items@.len() && (forall|j: int| 0 <= j < k ==> skipped(#[trigger] old(stream).items@[j]))
+            && e == old(stream).items@[k] && !skipped(e) && final(stream).items@ == old(stream).items@.skip(k + 1)
+            && final(self).refs@ == old(self).refs@ + refs_of(old(stream).items@, k), //# C10.entries_only_yields_next_directory_entry_and_collects_reference_uris
+        // end of stream: everything that was left was skipped, all reference URIs collected
+        r matches Ok(None) ==> (forall|j: int| 0 <= j < old(stream).items@.len() ==> skipped(#[trigger] old(stream).items@[j]))
+            && final(self).refs@ == old(self).refs@ + refs_of(old(stream).items@, old(stream).items@.len() as int), //# C10.entries_only_end_of_stream_after_skipping_the_rest
 //@end
 }
 
